@@ -116,7 +116,8 @@ Handle(X, ord, R, Menus, st, req) ==
   ELSE
     LET lp == IF req.load = 0 THEN st.path ELSE req.load
         s1 == IF req.load >= 0
-                THEN LET l == Load(X, R, st.files[lp], TRUE, st.U, st.P) IN [st EXCEPT !.U = l.U, !.P = l.P, !.path = lp]
+                THEN LET l == LoadPFrom(X, ord, R, st.files[lp], "sdkconfig", st.I)
+                     IN [st EXCEPT !.U = l.U, !.P = l.P, !.I = l.I, !.path = lp]
                 ELSE st
         r2 == IF req.set = <<>> THEN [st |-> s1, errs |-> 0] ELSE HandleSet(X, ord, s1, req.set)
         r3 == IF req.reset = <<>> THEN [st |-> r2.st, errs |-> 0]
